@@ -346,8 +346,8 @@ fn return_expr(p: &mut Parser<'_>) -> CompletedMarker {
     assert!(p.at(T![return]));
     let m = p.start();
     p.bump_any(); // `return` token.
-                  // parse possible returned expression
-    if p.at_ts(EXPR_FIRST) {
+                  // parse possible returned expression; a cast starts with a type name
+    if p.at_ts(EXPR_FIRST) || p.current().is_classical_type() {
         expr(p);
     }
     m.complete(p, RETURN_EXPR)
